@@ -4,6 +4,8 @@ Only two things are substituted: the retry pause of net.download_http (a keyword
 output (quiet). Loader, downloader, decompressor, urllib3, the external decompressors and the file system are real.
 """
 import logging
+
+import urllib3
 import os
 
 from esrally import config
@@ -55,6 +57,7 @@ class LogTap(logging.Handler):
 
 
 SLEEP = SleepCounter()
+READ_TIMEOUT = 0.25
 TAP = LogTap()
 _installed = False
 
@@ -70,6 +73,16 @@ def install():
     root.setLevel(logging.DEBUG)
     root.propagate = False
     net.download_http.__kwdefaults__["sleep"] = SLEEP
+    # the read timeout of a download (240 s in net.py) is the second constant that is substituted: a server that stalls in the middle of the
+    # body is part of the fault alphabet and must not cost four minutes per attempt
+    orig_request = net._request
+
+    def _request(method, url, **kwargs):
+        if "timeout" in kwargs:
+            kwargs["timeout"] = urllib3.Timeout(connect=45, read=READ_TIMEOUT)
+        return orig_request(method, url, **kwargs)
+
+    net._request = _request
     for k in ("http_proxy", "https_proxy", "all_proxy", "HTTP_PROXY", "HTTPS_PROXY", "ALL_PROXY"):
         os.environ.pop(k, None)
 
